@@ -74,7 +74,7 @@ func runC12(c *Ctx) {
 			return "", false
 		})
 	}
-	L.Floor("row-index-safe", 5, "row reads and toremove[...] reads in two functions")
+	L.Floor("row-index-safe", 2, "at least one row read or toremove[...] read in each of the two functions")
 	// the character set handed in by the caller is only read (it is reused across calls by the commands)
 	c.purityObligations("input-unmodified", []purityTarget{
 		{"align", "*align", "RemoveCharacterSites", []int{1}},
@@ -257,98 +257,33 @@ func (c *Ctx) checkCutoff(r *fnRef) {
 		L.Unknown("cutoff-comparison", r.label, "cutoff parameter", c.P.Pos(fn.Pos()), "parameter cutoff not found")
 		return
 	}
-	var counts []ssa.Value
-	nThr := 0
-	allInstrs(fn, func(in ssa.Instruction) {
-		bo, ok := in.(*ssa.BinOp)
-		if !ok || !isFloatValue(bo.X) {
-			return
-		}
-		switch bo.Op {
-		case token.LSS, token.LEQ, token.GTR, token.GEQ, token.EQL, token.NEQ:
-		default:
-			return
-		}
-		mx, my := mentions(bo.X, P), mentions(bo.Y, P)
-		if !mx && !my {
-			return
-		}
-		if mx && my {
-			L.Unknown("cutoff-comparison", r.label, "comparison with cutoff on both sides", c.P.Pos(bo.Pos()), "cannot orient the comparison")
-			return
-		}
-		cut, other := bo.X, bo.Y
-		if my {
-			cut, other = bo.Y, bo.X
-		}
-		if constOf(other) != nil {
-			return // range / zero tests: cutoff-domain rule
-		}
-		// threshold: other OP cut
-		op, _, _ := cmpNorm(bo, other)
-		nThr++
-		mul, isMul := cut.(*ssa.BinOp)
-		okShape := isMul && mul.Op == token.MUL
-		cv, isConv := other.(*ssa.Convert)
-		if !okShape || !isConv || !isIntType(cv.X.Type()) {
-			L.Unknown("cutoff-comparison", r.label, "threshold test", c.P.Pos(bo.Pos()), "threshold comparison is not of the form float64(count) OP cutoff*float64(total)")
-			return
-		}
-		counts = append(counts, cv.X)
-		if op == token.GEQ {
-			L.OK("cutoff-comparison", r.label, "threshold test", c.P.Pos(bo.Pos()), "float64(count) >= cutoff*float64(total)")
-		} else {
-			L.Bad("cutoff-comparison", r.label, "threshold test", c.P.Pos(bo.Pos()),
-				fmt.Sprintf("threshold test is `count %s cutoff*total`, want `>=`: a site/sequence exactly at the cutoff is treated wrongly", op))
-		}
-	})
+	// The threshold test and its zero-cutoff arm are looked for in the function and, when the
+	// function has none, in the helpers of the module it hands the cutoff to (extract-function).
+	nThr, okZero, hasEqZero := c.cutoffShape(r, fn, ssa.Value(P))
+	var zpos token.Pos
+	if nThr == 0 {
+		allInstrs(fn, func(in ssa.Instruction) {
+			call, ok := in.(*ssa.Call)
+			if !ok {
+				return
+			}
+			g := call.Common().StaticCallee()
+			if g == nil || len(g.Blocks) == 0 || g.Pkg == nil || !strings.HasPrefix(g.Pkg.Pkg.Path(), c.P.ModPath) || len(g.Params) != len(call.Common().Args) {
+				return
+			}
+			for i, a := range call.Common().Args {
+				if isFloatValue(a) && mentions(a, ssa.Value(P)) {
+					n, z, e := c.cutoffShape(r, g, ssa.Value(g.Params[i]))
+					nThr += n
+					okZero = okZero || z
+					hasEqZero = hasEqZero || e
+				}
+			}
+		})
+	}
 	if nThr == 0 {
 		L.Bad("cutoff-comparison", r.label, "threshold test", c.P.Pos(fn.Pos()), "no comparison of a count with cutoff*total found")
 	}
-	// zero arm: count > 0 on the same counter
-	okZero := false
-	var zpos token.Pos
-	zlc := newLinCtx(c, fn)
-	allInstrs(fn, func(in ssa.Instruction) {
-		bo, ok := in.(*ssa.BinOp)
-		if !ok || !isIntType(bo.X.Type()) {
-			return
-		}
-		for _, cnt := range counts {
-			op, rhs, ok := cmpNorm(bo, cnt)
-			if !ok {
-				// go/ssa has no CSE: a second load of the same element is a
-				// different register; compare canonical names
-				for _, side := range []ssa.Value{bo.X, bo.Y} {
-					if _, isLoad := side.(*ssa.UnOp); isLoad && side != cnt && zlc.canon(side) == zlc.canon(cnt) {
-						op, rhs, ok = cmpNorm(bo, side)
-					}
-				}
-			}
-			if !ok {
-				continue
-			}
-			k, isK := constInt(rhs)
-			if !isK {
-				continue
-			}
-			zpos = bo.Pos()
-			if (op == token.GTR && k == 0) || (op == token.GEQ && k == 1) || (op == token.NEQ && k == 0) {
-				okZero = true
-			}
-		}
-	})
-	// the zero arm must be under cutoff == 0
-	hasEqZero := false
-	allInstrs(fn, func(in ssa.Instruction) {
-		bo, ok := in.(*ssa.BinOp)
-		if !ok || bo.Op != token.EQL || !isFloatValue(bo.X) {
-			return
-		}
-		if (mentions(bo.X, P) && isFloatConst(bo.Y, 0)) || (mentions(bo.Y, P) && isFloatConst(bo.X, 0)) {
-			hasEqZero = true
-		}
-	})
 	if okZero && hasEqZero {
 		L.OK("cutoff-comparison", r.label, "zero-cutoff arm", c.P.Pos(zpos), "cutoff == 0 && count > 0 on the counter of the threshold test")
 	} else {
@@ -429,6 +364,101 @@ func (c *Ctx) checkCutoff(r *fnRef) {
 			}
 		}
 	}
+}
+
+// cutoffShape looks in fn for the threshold comparison on the value P (the cutoff) and for the
+// zero-cutoff arm on the same counter; returns the number of threshold tests found, whether a
+// `count > 0` test on that counter exists, and whether `cutoff == 0` is tested.
+func (c *Ctx) cutoffShape(r *fnRef, fn *ssa.Function, P ssa.Value) (int, bool, bool) {
+	L := c.L
+	var counts []ssa.Value
+	nThr := 0
+	allInstrs(fn, func(in ssa.Instruction) {
+		bo, ok := in.(*ssa.BinOp)
+		if !ok || !isFloatValue(bo.X) {
+			return
+		}
+		switch bo.Op {
+		case token.LSS, token.LEQ, token.GTR, token.GEQ, token.EQL, token.NEQ:
+		default:
+			return
+		}
+		mx, my := mentions(bo.X, P), mentions(bo.Y, P)
+		if !mx && !my {
+			return
+		}
+		if mx && my {
+			L.Unknown("cutoff-comparison", r.label, "comparison with cutoff on both sides", c.P.Pos(bo.Pos()), "cannot orient the comparison")
+			return
+		}
+		cut, other := bo.X, bo.Y
+		if my {
+			cut, other = bo.Y, bo.X
+		}
+		if constOf(other) != nil {
+			return // range / zero tests: cutoff-domain rule
+		}
+		// threshold: other OP cut
+		op, _, _ := cmpNorm(bo, other)
+		nThr++
+		mul, isMul := cut.(*ssa.BinOp)
+		okShape := isMul && mul.Op == token.MUL
+		cv, isConv := other.(*ssa.Convert)
+		if !okShape || !isConv || !isIntType(cv.X.Type()) {
+			L.Unknown("cutoff-comparison", r.label, "threshold test", c.P.Pos(bo.Pos()), "threshold comparison is not of the form float64(count) OP cutoff*float64(total)")
+			return
+		}
+		counts = append(counts, cv.X)
+		if op == token.GEQ {
+			L.OK("cutoff-comparison", r.label, "threshold test", c.P.Pos(bo.Pos()), "float64(count) >= cutoff*float64(total)")
+		} else {
+			L.Bad("cutoff-comparison", r.label, "threshold test", c.P.Pos(bo.Pos()),
+				fmt.Sprintf("threshold test is `count %s cutoff*total`, want `>=`: a site/sequence exactly at the cutoff is treated wrongly", op))
+		}
+	})
+	// zero arm: count > 0 on the same counter
+	okZero := false
+	zlc := newLinCtx(c, fn)
+	allInstrs(fn, func(in ssa.Instruction) {
+		bo, ok := in.(*ssa.BinOp)
+		if !ok || !isIntType(bo.X.Type()) {
+			return
+		}
+		for _, cnt := range counts {
+			op, rhs, ok := cmpNorm(bo, cnt)
+			if !ok {
+				// go/ssa has no CSE: a second load of the same element is a
+				// different register; compare canonical names
+				for _, side := range []ssa.Value{bo.X, bo.Y} {
+					if _, isLoad := side.(*ssa.UnOp); isLoad && side != cnt && zlc.canon(side) == zlc.canon(cnt) {
+						op, rhs, ok = cmpNorm(bo, side)
+					}
+				}
+			}
+			if !ok {
+				continue
+			}
+			k, isK := constInt(rhs)
+			if !isK {
+				continue
+			}
+			if (op == token.GTR && k == 0) || (op == token.GEQ && k == 1) || (op == token.NEQ && k == 0) {
+				okZero = true
+			}
+		}
+	})
+	// the zero arm must be under cutoff == 0
+	hasEqZero := false
+	allInstrs(fn, func(in ssa.Instruction) {
+		bo, ok := in.(*ssa.BinOp)
+		if !ok || bo.Op != token.EQL || !isFloatValue(bo.X) {
+			return
+		}
+		if (mentions(bo.X, P) && isFloatConst(bo.Y, 0)) || (mentions(bo.Y, P) && isFloatConst(bo.X, 0)) {
+			hasEqZero = true
+		}
+	})
+	return nThr, okZero, hasEqZero
 }
 
 func (c *Ctx) checkRebuild(r *fnRef) {
